@@ -24,6 +24,17 @@ reg("C17",
     outside="the cut itself (>= 1024 consecutive smallest steps after the wall clock passed the end time) is permitted by the statement and not asserted",
     )
 
+reg("C17",
+    name="C17_lag_push", src="harness/C17_lag_push.cpp",
+    anchor_files=["src/hgraph/runtime/executor.cpp", "src/hgraph/runtime/push_source_node.cpp", "src/hgraph/runtime/graph.cpp"],
+    quick=dict(defs=dict(NTICKS=6, GAPMAX=4), symx=dict(shards=2, **{"max-wall": 600})),
+    thorough=dict(defs=dict(NTICKS=10, GAPMAX=6), symx=dict(shards=4, **{"max-wall": 1200})),
+    reach=["end", "run_returned", "pushed_during_lagging_evaluation"],
+    bounds="a real-time run whose window lies 30/60 s behind the wall clock; a ticker re-scheduling itself NTICKS times with an enumerated gap of 1..GAPMAX us; "
+           "during one enumerated tick (not the last) its evaluation pushes a symbolic payload into a queue push source of the same graph",
+    outside="pushes from other threads (C16_queue_mt); a push during the last scheduled evaluation of a lagging run (the run has reached its end time)",
+    )
+
 META = dict(
     level="bounded symbolic model checking of the real-time run loop (executor.cpp run_storage/advance_realtime with the real condition-variable wait_for, "
           "graph.cpp, node.cpp, node_scheduler.h) under a virtual wall clock",
